@@ -66,6 +66,14 @@ CHECKS = {
              'replace_expr({s:r}) equals a reference tree substitution under E1 for every sub-expression s.',
         note='Trusted: z3, SInt proxy, E1, CPython str hash. Bounds: sizes 1..128, bounds 0..64, depth <= 2 shapes, singleton replacement maps.',
         design='5/C15', engine='E2+E1'),
+    'C06': dict(
+        level='translation_validation',
+        technique='symbolic execution of the real eval_abs.eval_expr with symbolic constants and bindings (E2) + SMT equality with a reference substitution under E1 (z3)',
+        text='Per (expression shape, binding kind per identifier, binding kind of its memory cells): the real eval_expr runs on symbolic constants in a state binding identifiers '
+             'and exact-address memory cells to symbolic constants / expressions / nothing; on every path the solver proves E1(result) = E1(reference simultaneous substitution) for all '
+             'valuations of the free symbols and all constants, the same width, and that all-constant inputs give an ExprInt. Exceptions other than the documented ValueError are violations keyed by operator.',
+        note='Trusted: z3, SInt proxy, E1 incl. x86 helper operators, the 40-line reference substitution. Bounds: templates + depth-1 shapes + lifter operators; widths 32/8 (quick), 8..64 (thorough); overlap is C07.',
+        design='5/C06', engine='E2+E1'),
 }
 
 NOT_APPLICABLE = {
